@@ -174,7 +174,8 @@ def token_mutations(rng):
                "DEC (lbl)", "DEC foo", "DEC 0x10", "DEC ((R3+))", "LDSP lbl", "LDFR (0xF9)", ".EQU bar", ".EQU bar 0x10", ".EQU bar 256", ".EQU 5 5", ".EQU bar,5",
                "*STACKSIZE 8", "*STACKSIZE 016", "*STACKSIZE", "*PROGRAMSIZE 256", "*PROGRAMSIZE 0x10", "*PROGRAMSIZE auto", ".ORG", ".DB", ".DB 1,", ".DB ,1", ".DB 1 2",
                ".XYZ 1", "NOP NOP", "NOP ; ok", "STOP R0", "RETI;x", "EI\tDI", "PUSHF R0", "MOV R0 , R1", "MOV R0 ,R1", "MOV ( R0), R1", "MOV (R0 ), R1", "LD pc, 1", "LD Pc, 1",
-               "LD R00, 1", "LD R, 1", "LD r3, 1", "lbl: NOP", "MOV (lbl), lbl", "MOV lbl, R0", "BITS (foo), FOO", "CMP (PC+), (r3)", "Rx:", "PCx:", "SPam:", "mov:", "NOP:"]
+               "LD R00, 1", "LD R, 1", "LD r3, 1", "lbl: NOP", "MOV (lbl), lbl", "pcount:", "Pc1:", "pC:", "pc:", "rx:", "r:", "Result:", "spam:", "Sp:", "sP0:", ".EQU pc 7", ".EQU pcx 7", ".EQU rr 1",
+               ".EQU Spx 2", "JMP pcount", "LD R0, pcount", "MOV (rx), R0", "LD R0, sp", "CALL r9", "LD R0, R4", "LD R0, R10", "LD R0, (R4)", "LD R0, (pc)", "LD R0, (Pc+)", "MOV lbl, R0", "BITS (foo), FOO", "CMP (PC+), (r3)", "Rx:", "PCx:", "SPam:", "mov:", "NOP:"]
     out = []
     for p in probes:
         out.append("#! mrasm\n" + "\n".join(base + [p]) + "\n")
